@@ -20,6 +20,6 @@ def handle (fs : List String) : String :=
     F2 — the HTTP app's Start fails at its second listener (address 1 is held by somebody else);
     its first listener (address 0) stays bound and answers with the rejected config's tag 2. -/
 def witnessLines : List String :=
-  ["L=0~-~3,1,0,0,-=1,0,-,3,3 L=0~-~3,2,0,2.1,-=1,0,1,3,3"]
+  ["L=0~-~3,1,0,0,-=1,0,0,-,3,3 L=0~-~3,2,0,2.1,-=1,0,0,1,3,3"]
 
 end CaddyModel.C01
